@@ -60,7 +60,37 @@ func VerifC18Store() {
 	masks := []int{63, 1, 2, 8, 32, 12, 0, 62}
 	for op := 0; op < nops; op++ {
 		u := vapi.Pick("uid", 2)
-		switch vapi.Pick("op", 4) {
+		switch vapi.Pick("op", 5) {
+		case 4: // one usage upload carrying both users (arbitrary usage): credits of the existing ones go down by it
+			upA, downA, upB, downB := vapi.I64("upA"), vapi.I64("downA"), vapi.I64("upB"), vapi.I64("downB")
+			var err error
+			panicked := vapi.Catch(func() {
+				_, err = m.UploadStatus([]StatusUpdate{
+					{UID: c18UIDs[0], Active: true, NumSession: 1, UpUsage: upA, DownUsage: downA, Timestamp: 1700000000},
+					{UID: c18UIDs[1], Active: true, NumSession: 1, UpUsage: upB, DownUsage: downB, Timestamp: 1700000000}})
+			})
+			vapi.AssertKnown(!panicked, "C18-missing-field-panics", "C18: a usage upload never panics")
+			if panicked {
+				return
+			}
+			vapi.Assert(err == nil, "C18: usage upload accepted")
+			if ref[0].exists {
+				ref[0].v[3] -= upA
+				ref[0].v[4] -= downA
+			}
+			if ref[1].exists {
+				ref[1].v[3] -= upB
+				ref[1].v[4] -= downB
+			}
+			for i := 0; i < 2; i++ { // read both back at once: each user was charged its own usage
+				if ref[i].exists {
+					got, gerr := m.GetUserInfo(c18UIDs[i])
+					vapi.Assert(gerr == nil, "C18: existing user is found after a usage upload")
+					if gerr == nil {
+						c18Check(got, ref[i], "after upload")
+					}
+				}
+			}
 		case 0: // create / update with a subset of fields and arbitrary values
 			mask := masks[vapi.Pick("mask", vapi.Param("masks", len(masks)))]
 			var vals [6]int64
